@@ -68,6 +68,9 @@ def check(rep, an, tier):
                       config=res.config, msg=f"degrees {deg}")
         D.consistency(rep, res, entry)
         R.rule_type_errors(rep, res, "SHAPE", "R-SHAPE", entry)
+        from .C01 import gradient_weights
+        gradient_weights(rep, res, entry)
+        R.rule_dtype_casts(rep, res, entry)
     # ---- system_capture / system_relative_capture / relative_capture / apply_linear_transform
     for Kk in ("vec", "mat", "scalar"):
         for bl in ("vec", "scalar"):
@@ -156,6 +159,14 @@ def check(rep, an, tier):
                     rep.check("R-QTY", f"K := 1 / ({want} capture of the background)", None if inv is None else inv == want, where=st[-1].loc,
                               construct=st[-1].text(), entry=entry, config=res.config, msg=f"inverse of a {inv} capture")
                 R.rule_type_errors(rep, res, "QTY", "R-QTY", entry)
+                for tv in res.events("abs_tolerance"):
+                    if tv.d.get("dimensioned"):
+                        rep.violated("R-QTY", "no absolute tolerance on the capture that is inverted", where=tv.loc, construct=tv.text(), entry=entry,
+                                     config=res.config,
+                                     msg="an absolute tolerance decides whether the background capture counts as zero: for captures in small "
+                                         "physical units the adaptation is silently replaced (relative capture of the background ≠ 1)")
+                if add and meth == "register_system_adaptation":
+                    pass
                 lit = [e for e in res.events("type_error") if e.d["facet"] == "QTY"]
                 D.consistency(rep, res, entry)
     R.rule_api(rep, api_results, "ReceptorEstimator.register_system")
